@@ -216,23 +216,26 @@ def L(op, cfg, *rest): return '%s %d %d %d %s' % (op, cfg[0], cfg[1], cfg[2], ' 
 
 
 def gate_lines(cfg, rng, per_cfg):
-    """prefixes of one stream whose populated-bucket count is just below / at / above the gate"""
+    """prefixes of one stream whose populated-bucket count is just below / at / above the gate: a uniform run of the minimum
+    length (50 with force, 256 without) populates only a handful of buckets, the varied bytes after it add a few per byte"""
     b, w, c = cfg
     rb, tx, few = gens(rng)
-    d = rng.choice([rb, tx, lambda n: few(rng.choice([5, 6, 8, 12]), n)])(700)
     thr = 18 if b == 48 else b // 2 + 1          # smallest populated count that is hashed
     tr = [t for t in R.TRIPLETS if t[2] < w]
-    bk = [0] * 256; pop = 0; found = {}
-    for e in range(w - 1, len(d)):
-        for s, x, y in tr:
-            v = R.bmap(s, d[e], d[e - x], d[e - y])
-            if bk[v] == 0 and v < b: pop += 1
-            bk[v] += 1
-        n = e + 1
-        if n >= 50 and thr - 2 <= pop <= thr + 1 and pop not in found: found[pop] = n
-    for pop, n in sorted(found.items())[:per_cfg]:
-        yield L('tlsh', cfg, 'T', hx(d[:n])), 'tlsh.gate'
-        if n >= 256: yield L('tlsh', cfg, 'F', hx(d[:n])), 'tlsh.gate'
+    for pad, force in ((50, 'T'), (256, 'F')):
+        d = bytes([rng.getrandbits(8)]) * pad + rng.choice([rb, tx, lambda n: few(rng.choice([6, 8, 12]), n)])(600)
+        bk = [0] * 256; pop = 0; found = {}
+        for e in range(w - 1, len(d)):
+            for s, x, y in tr:
+                v = R.bmap(s, d[e], d[e - x], d[e - y])
+                if bk[v] == 0 and v < b: pop += 1
+                bk[v] += 1
+            n = e + 1
+            if n >= pad and thr - 2 <= pop <= thr + 1 and pop not in found: found[pop] = n
+            if pop > thr + 1: break
+        for pop, n in sorted(found.items())[:per_cfg]:
+            yield L('tlsh', cfg, force, hx(d[:n])), 'tlsh.gate'
+            if force == 'F': yield L('tlsh', cfg, 'T', hx(d[:n])), 'tlsh.gate'
 
 
 def tweak(x, pos, val): return x[:pos] + bytes([val]) + x[pos + 1:]
